@@ -58,6 +58,10 @@ def _make(conv, shape, holes, skew, mesh_opts=None):
         for (j, i) in holes:
             lonb[j, i] = numpy.nan
             latb[j, i] = numpy.nan
+        for (j, i) in (mesh_opts or {}).get('bowtie', ()):
+            # corners listed in a crossing order: a self-intersecting cell, dropped with a warning
+            lonb[j, i] = lonb[j, i][[0, 2, 1, 3]]
+            latb[j, i] = latb[j, i][[0, 2, 1, 3]]
         REF['corners'] = (lonb, latb)
         if conv == 'cf2d':
             ds = builders.cf2d(ny, nx, lat=lat, lon=lon, lat_bounds=latb, lon_bounds=lonb)
@@ -96,7 +100,7 @@ def body(ctx, conv, shape, holes, skew, via, mesh_opts=None, history=False, boun
         for j in range(ny):
             for i in range(nx):
                 p = polygons[j * nx + i]
-                if numpy.isnan(lonb[j, i]).any():
+                if numpy.isnan(lonb[j, i]).any() or not shapely.Polygon(list(zip(lonb[j, i], latb[j, i]))).is_valid:
                     ok = ok and p is None
                 else:
                     ok = ok and p is not None and p.equals(shapely.Polygon(list(zip(lonb[j, i], latb[j, i]))))
@@ -198,6 +202,11 @@ def cases(tier):
     for conv, shape, holes, skew in (('cf2d', (2, 2), (), True), ('shoc_simple', (2, 2), ((1, 1),), True)):
         yield Case(f'{conv}:{shape[0]}x{shape[1]}:holes{len(holes)}:skew:get_index_for_point:bounds-as-coordinates', body,
                    dict(conv=conv, shape=shape, holes=holes, skew=skew, via='get_index_for_point', bounds_coords=True),
+                   max_paths=20000, split=16, patches=PATCHES)
+    # a missing cell before a self-intersecting one: the dropped cell is found in the full array
+    for conv, shape, holes, bow in (('cf2d', (2, 3), ((0, 0),), ((1, 1),)), ('shoc_simple', (2, 2), ((0, 1),), ((1, 0),))):
+        yield Case(f'{conv}:{shape[0]}x{shape[1]}:holes1:bowtie1:get_index_for_point', body,
+                   dict(conv=conv, shape=shape, holes=holes, skew=False, via='get_index_for_point', mesh_opts=dict(bowtie=bow)),
                    max_paths=20000, split=16, patches=PATCHES)
     # unsigned connectivity tables with a fill value attribute (ragged mesh, one-based with fill 0; zero-based with fill 65535)
     for mo in (dict(start_index=1, fill='attr', fill_value=0, dtype='uint16'), dict(start_index=0, fill='attr', fill_value=65535, dtype='uint16'),
